@@ -39,6 +39,12 @@ def run(ctx):
     for r, t in [("R1", "conditions are validated through bool_from_word (0/1 only); no branch on a raw word"), ("R2", "jump shape"), ("R3", "evaluation result"),
                  ("R4", "control-flow plumbing of Vm::exec"), ("R5", "repeat bookkeeping tables")]:
         ctx.rule(r, t)
+    # nesting up to the repeat-stack limit: a loop is opened exactly while fewer than SIZE_LIMIT loops are open (C05 RB, repeat container)
+    from .. import bounded as B_
+    ctx.rule("R6", "a Repeat is accepted exactly while the repeat stack holds fewer than its limit of slots (writers of Repeat.stack, C05 RB)")
+    for (label, adt, field, limit, doc) in B_.CONTAINERS:
+        if label == "repeat":
+            B_.check_container(ctx, "R6", prog, label, adt, field, limit, doc)
     f = prog.fn(BW)
     if ctx.anchor("R1", "fn bool_from_word", f):
         expect(ctx, "R1", "bool_from_word:0->false,1->true,else None", f,
